@@ -194,8 +194,11 @@ def fwd (tbl : Option TableInfo) (disp : Nat → Nat) (e : Engine) (a : Args) : 
 /-! ### backward -/
 
 /-- input decoding (lou_backTranslateString.c:206-211), without the sentinel -/
+def decodeDotsIO (c : Nat) : Nat :=
+  (if c &&& LOU_DOTS = 0 ∧ c &&& 0xff00 = LOU_ROW_BRAILLE then (c &&& 0xff) ||| LOU_DOTS else c) ||| LOU_DOTS
+
 def decodeInput (mode : Nat) (dotsFor : Nat → Nat) (l : List Nat) : List Nat :=
-  l.map fun c => if hasBit mode mDotsIO then c ||| LOU_DOTS else dotsFor c
+  l.map fun c => if hasBit mode mDotsIO then decodeDotsIO c else dotsFor c
 
 structure BackState where
   input : List Nat
